@@ -5,6 +5,11 @@ CONSTANTS
   VarLong = 4
   Padding = TRUE
   RelFpuOK = TRUE
+  RefKinds = {"abs", "var", "rel"}
+  Sects = {}
+  Quals = {8}
+  Alias = {}
+  CaseSens = FALSE
   Pages = {}
   PageReset = TRUE
   SelfKinds = {}
